@@ -90,6 +90,9 @@ fn many_lines(t: &mut Tape, table: &DataTable, n: usize, key_domain: i64) -> Vec
                         V::Text(format!("g{}", t.range(0, key_domain)))
                     } else if t.chance(1, 8) {
                         V::Null
+                    } else if *ty == Ty::Real && t.chance(1, 5) {
+                        // the two zeros are equal: containers keyed on values must not tell them apart
+                        V::Real(if t.chance(1, 2) { 0.0 } else { -0.0 })
                     } else {
                         crate::props::c04::small_value(t, *ty)
                     }
@@ -108,7 +111,7 @@ impl Property for C18 {
     }
 
     fn rule(&self) -> String {
-        "statements that push many items through every hash container on the output path: `*` over 8-12 columns, GROUP BY with up to 30 groups (a third of them: up to 120 groups over 150-300 lines) and 4-6 aggregates, optional LIMIT / DISTINCT, groups must also come out in ascending key order, joins with 6-10 partners per key and `*` over both tables, \
+        "statements that push many items through every hash container on the output path: `*` over 8-12 columns, GROUP BY (COUNT / SUM / MIN / MAX / COUNT(DISTINCT) over any column incl. REALs with both zeros / ARRAY_AGG / array_unique(ARRAY_AGG) over nullable columns) with up to 30 groups (a third of them: up to 120 groups over 150-300 lines) and 4-6 aggregates, optional LIMIT / DISTINCT, groups must also come out in ascending key order, joins with 6-10 partners per key and `*` over both tables, \
          HAVING with hidden aggregates; definitions with 0-6 extra unrelated tables in different positions, among them tables whose name differs from a used one only in letter case. Oracle: byte equality of the captured output (text and JSON) across 8 in-process repetitions (every HashMap gets a fresh \
          RandomState), the variants with extra tables added / reordered, and (a slice of cases) 4 fresh child processes. Non-trivial: output with >= 6 rows or >= 6 columns; distinct by case."
             .to_string()
@@ -177,7 +180,9 @@ impl Property for C18 {
                 let n = 4 + t.draw(3);
                 for i in 0..n {
                     let c = E::col(t.pick(&numeric).as_str());
-                    let agg = match t.draw(6) {
+                    let agg = match t.draw(8) {
+                        6 => E::call("array_unique", vec![E::Agg("ARRAY_AGG".into(), false, vec![c])]),
+                        7 => E::Agg("COUNT".into(), true, vec![E::col(t.pick(&table.cols.iter().map(|c| c.0.clone()).collect::<Vec<_>>()).as_str())]),
                         0 => E::Agg("COUNT".into(), false, vec![E::Star]),
                         1 => E::Agg("SUM".into(), false, vec![c]),
                         2 => E::Agg("MIN".into(), false, vec![c]),
